@@ -3,6 +3,7 @@ package qf1006
 import (
 	"go/ast"
 	"go/token"
+	"go/types"
 
 	"honnef.co/go/tools/analysis/code"
 	"honnef.co/go/tools/analysis/edit"
@@ -44,7 +45,28 @@ var Analyzer = SCAnalyzer.Analyzer
 var checkForLoopIfBreak = pattern.MustParse(`(ForStmt nil nil nil if@(IfStmt nil cond (BranchStmt "BREAK" nil) nil):_)`)
 
 func run(pass *analysis.Pass) (any, error) {
+	// hasFloats reports whether any subexpression is of type float.
+	hasFloats := func(expr ast.Expr) bool {
+		found := false
+		ast.Inspect(expr, func(node ast.Node) bool {
+			if expr, ok := node.(ast.Expr); ok {
+				if typ := pass.TypesInfo.TypeOf(expr); typ != nil {
+					if basic, ok := typ.Underlying().(*types.Basic); ok && (basic.Info()&types.IsFloat) != 0 {
+						found = true
+						return false
+					}
+				}
+			}
+			return true
+		})
+		return found
+	}
+
 	for node, m := range code.Matches(pass, checkForLoopIfBreak) {
+		if hasFloats(m.State["cond"].(ast.Expr)) {
+			// !(a < b) is not a >= b when NaN is involved; be as conservative as QF1001
+			continue
+		}
 		pos := node.Pos() + token.Pos(len("for"))
 		r := astutil.NegateDeMorgan(m.State["cond"].(ast.Expr), false)
 
